@@ -513,6 +513,42 @@ func runR144(c *core.Ctx) {
 			}
 		}
 	}
+	if las != nil {
+		loops := ssax.Loops(las)
+		ssax.Instrs(las, func(ins ssa.Instruction) {
+			g, ok := ins.(*ssa.Go)
+			if !ok {
+				return
+			}
+			l := ssax.InnermostLoop(loops, g.Block())
+			mc, isMC := g.Call.Value.(*ssa.MakeClosure)
+			if l == nil || !isMC {
+				return
+			}
+			var bad []string
+			cl := mc.Fn.(*ssa.Function)
+			for i, b := range mc.Bindings {
+				al, isCell := b.(*ssa.Alloc)
+				if !isCell {
+					continue
+				}
+				name := cl.FreeVars[i].Name()
+				// a variable written inside the accept loop must also live inside it, otherwise every connection's
+				// goroutine looks at the same cell and sees the handlers of whichever connection was accepted last
+				written := false
+				for _, st := range ssax.StoresTo(al) {
+					if st.Parent() == las && l.Blocks[st.Block()] {
+						written = true
+					}
+				}
+				if written && !l.Blocks[al.Block()] {
+					bad = append(bad, name)
+				}
+			}
+			c.Check(len(bad) == 0, "R14.4", "server.ListenAndServe#per-connection-variables", c.P.Pos(g.Pos()), "what the per-connection goroutine captures is created per accepted connection",
+				"the per-connection goroutine captures "+strings.Join(bad, ", ")+", declared outside the accept loop but assigned per connection: goroutines of different connections share the cell and can end up using another connection's backend handler")
+		})
+	}
 	for _, name := range []string{"Regular", "Chunked"} {
 		fn := c.P.Func("handlers/memcached", name)
 		key := "memcached." + name + "#dial-per-connection"
